@@ -11,11 +11,12 @@ def universe(rnd, nkeys, nvals):
     lens = [1, 2, 3, 7, 16, 64, 200, 255, 256]
     keys = {}
     for i in range(nkeys):
-        n = lens[i] if i < len(lens) else rnd.randint(1, 255)
-        body = bytes([rnd.randrange(256) for _ in range(n)]) if i % 3 == 2 else (f"k{i}-".encode() * 300)[:n]
+        n = lens[i] if i < len(lens) else rnd.randint(2, 255)
+        if i % 3 == 2:      # binary keys: first byte is the index (distinct), the rest random
+            body = bytes([i]) + bytes(rnd.randrange(256) for _ in range(n - 1))
+        else:               # text keys: start with the index in hex (distinct)
+            body = (f"{i:x}" + "k-" * 200).encode()[:n]
         keys[f"K{i}"] = body
-    if len({v for v in keys.values()}) != len(keys):
-        keys = {t: (b + t.encode())[:max(len(b), 1)] if len(b) > 3 else b for t, b in keys.items()}
     vlens = [0, 1, 3, 100, 4096, 70000]
     vals = {}
     for i in range(nvals):
